@@ -91,8 +91,10 @@ Fixpoint pcf_loop (ls : list line) (rf : list cfield) (pending : list line)
 
 Definition parse_commented_fields (f : file) : list cfield := fst (pcf_loop (f_lines f) [] []).
 
-(* comment lines the reader forgets: pending at EOF, plus an unterminated comment tail *)
-Definition forgotten_comments (f : file) : list line :=
+(* mf.trailingComments (since /repo commit f15d834): the comment lines still pending at EOF, plus an
+   unterminated comment tail (which is written back newline-terminated).  Before that commit these
+   lines were silently forgotten (finding `trailing-comment-dropped`, now fixed). *)
+Definition trailing_kept (f : file) : list line :=
   snd (pcf_loop (f_lines f) [] []) ++
   match f_tail f with
   | Some s => if is_comment_or_blank s then [s] else []
@@ -111,15 +113,19 @@ Definition comment_lines (f : file) : list line :=
 Definition has_field (orig : list cfield) (n : string) : bool :=
   existsb (fun c => String.eqb (cf_field c) n) orig.
 
-(* [render n]: the lines of marshalField(n, kustomization) — [] when the field is empty/unknown *)
-Definition marshal_in (order : list string) (orig : list cfield) (render : string -> list line) : list line :=
+(* [render n]: the lines of marshalField(n, kustomization) — [] when the field is empty/unknown.
+   Original fields with their comments, then the trailing comments, then the remaining fields in
+   fieldMarshallingOrder. *)
+Definition marshal_in (order : list string) (orig : list cfield) (trailing : list line)
+           (render : string -> list line) : list line :=
   flat_map (fun c => cf_comment c ++ render (cf_field c)) orig ++
+  trailing ++
   flat_map (fun n => if has_field orig n then [] else render n) order.
 
-Definition marshal (orig : list cfield) (render : string -> list line) : list line :=
-  marshal_in gen_field_order orig render.
+Definition marshal (orig : list cfield) (trailing : list line) (render : string -> list line) : list line :=
+  marshal_in gen_field_order orig trailing render.
 
-(* the kept comments, in output order *)
+(* the comments attached to fields, in output order *)
 Definition kept_comments (orig : list cfield) : list line := flat_map cf_comment orig.
 
 (* ---------- comment lines that YAML also reads as comments wherever they are re-emitted ----------
